@@ -273,7 +273,21 @@ func c16cold(c *mon.Ctx, idx int, out string) {
 	var f *sfnt.Font
 	desc := ""
 	corpus := corpusFiles(c)
-	if idx%2 == 1 && len(corpus) > 0 {
+	// from the seventh process on: all goroutines make the same call first
+	// (sixteen first uses of one operation at the same moment), on a font that
+	// was constructed in memory, so that nothing of the library has run yet
+	herd := idx >= 6
+	herdStart := 0
+	if herd {
+		starts := []string{"Write", "Layout", "Subset", "WritePDF", "MakeGlyphNames", "ExplainGsub", "Apply(GSUB)", "AsCFF.Write", "Layout(all features)"}
+		want := starts[(idx-6)%len(starts)]
+		for j, op := range ops {
+			if op.name == want {
+				herdStart = j
+			}
+		}
+	}
+	if idx%2 == 1 && len(corpus) > 0 && !herd {
 		// a real font read from bytes inside the goroutines' first operation is
 		// not possible (the font must exist first); reading is itself the first use
 		cf := corpus[(idx*5)%len(corpus)]
@@ -291,7 +305,7 @@ func c16cold(c *mon.Ctx, idx int, out string) {
 		}
 		c16richLayout(c.Rand("coldlayout", idx), f)
 		desc = "generated " + kinds[idx/2%3]
-		if (idx/2)%2 == 1 {
+		if (idx/2)%2 == 1 && !herd {
 			buf := &bytes.Buffer{}
 			if _, err := f.Write(buf); err == nil {
 				if g, err := sfnt.Read(bytes.NewReader(buf.Bytes())); err == nil {
@@ -314,6 +328,9 @@ func c16cold(c *mon.Ctx, idx int, out string) {
 			<-gate
 			for i := range ops {
 				j := (i + g) % len(ops) // every operation is somebody's first
+				if herd {
+					j = (i + herdStart) % len(ops)
+				}
 				if !ops[j].ok(f) {
 					continue
 				}
@@ -349,7 +366,11 @@ func c16cold(c *mon.Ctx, idx int, out string) {
 			}
 		}
 	}
-	b, _ := json.Marshal(map[string]any{"Desc": desc + fmt.Sprintf(", %d goroutines, first use of every operation is concurrent", n), "Ops": nOps, "Mismatches": mism})
+	how := "first use of every operation is concurrent"
+	if herd {
+		how = "all goroutines call " + ops[herdStart].name + " first"
+	}
+	b, _ := json.Marshal(map[string]any{"Desc": desc + fmt.Sprintf(", %d goroutines, %s", n, how), "Ops": nOps, "Mismatches": mism})
 	os.WriteFile(out, b, 0o644)
 }
 
@@ -690,7 +711,7 @@ func runC16(c *mon.Ctx) {
 	// cold start: the very first use of the library in a fresh process happens
 	// concurrently (lazily initialised package-level state is only exposed then;
 	// the sequential reference of the stratum above would warm it up)
-	nCold := c.N(6, 30)
+	nCold := c.N(12, 36)
 	c.Stratum("cold-start", nCold, func(k *mon.Case) {
 		exe, err := os.Executable()
 		if err != nil {
@@ -736,6 +757,9 @@ func runC16(c *mon.Ctx) {
 			}
 		}
 		k.Class("cold-start-process")
+		if strings.Contains(res.Desc, "all goroutines call") {
+			k.Class("cold-start-process:same-first-call")
+		}
 		if k.Index < 1 {
 			k.Sample("cold start: " + res.Desc)
 		}
@@ -771,6 +795,6 @@ func runC16(c *mon.Ctx) {
 		}
 		k.Distinct("canary")
 	})
-	c.Require("cold-start-process", "font:mark-filtering-set-without-gdef", "font:cid-fd-blocks", "font:read-back:cid", "font:read-back:glyf", "font:contextual-layout", "canary-race-reported", "goroutines=2", "goroutines=64", "GOMAXPROCS=2", "GOMAXPROCS=16",
+	c.Require("cold-start-process", "cold-start-process:same-first-call", "font:mark-filtering-set-without-gdef", "font:cid-fd-blocks", "font:read-back:cid", "font:read-back:glyf", "font:contextual-layout", "canary-race-reported", "goroutines=2", "goroutines=64", "GOMAXPROCS=2", "GOMAXPROCS=16",
 		"overlap:Write+Write", "overlap:Write+Subset", "overlap:MakeGlyphNames+Layout", "overlap:Apply(GSUB)+ExplainGsub", "overlap:Subset+Layout")
 }
